@@ -81,6 +81,11 @@ def main(argv=None):
     # proof verdict is a function of the source text alone
     t_start = time.time()
 
+    if args.replay and not args.replay.endswith(".py"):
+        # a replay that is not a script names the failed obligations (no concrete input was found): show it
+        print(open(args.replay).read())
+        print(f"(no concrete failing input in this replay; `./check {pid}` re-generates and re-discharges the obligations it names)")
+        return 1
     if args.replay:
         rc, out, err = run_native([args.replay])
         sys.stdout.write(out)
